@@ -409,7 +409,7 @@ def gen_histories(ctx: Ctx, deep: bool):
     rng = ctx.rng
     ops_all = ["flip", "fft", "fft", "fft_uncentered", "fft_ortho"]
     # --- fixed: 5-D then other slice counts then 4-D on one CropKspace instance, every crop form
-    for form in ("tuple", "list"):
+    for form in ("tuple", "list", "str_tuple", "str_list"):
         for centre in (True, False):
             for ops in ("flip", "fft"):
                 yield {"cls": "CropKspace", "ops": ops,
@@ -429,7 +429,7 @@ def gen_histories(ctx: Ctx, deep: bool):
                 yield {"cls": cls, "ops": ops, "kwargs": dict(kw, kspace_key=kk),
                        "samples": [_sample_spec(rng, rank or 4, need, h=5, w=6), _sample_spec(rng, 5, need, slices=3, h=4, w=7),
                                    _sample_spec(rng, rank or 4, need | {"padding", "target"}, h=7, w=3)]}
-    # --- fixed: argument forms that are pending findings on the current tree (deterministic, once per run)
+    # --- fixed: argument forms that were defects of the pinned tree (regression cases, once per run)
     yield {"cls": "CropKspace", "ops": "flip", "kwargs": {"crop": [3, 2], "crop_form": "str_tuple", "image_space_center_crop": True},
            "samples": [_sample_spec(rng, 5, {"kspace"}, slices=4, h=5, w=4)]}
     yield {"cls": "CropKspace", "ops": "flip",
@@ -460,7 +460,7 @@ def gen_histories(ctx: Ctx, deep: bool):
             if three:
                 ranks = [5] * nsmp
             elif form in ("str_tuple", "str_list"):
-                ranks = [4] * nsmp if rng.random() < 0.85 else mixed     # 2-element string on 5-D = the pending finding: rare
+                ranks = mixed                                              # string crops on 5-D data (repaired in f148874)
             else:
                 ranks = mixed
             if (not kw["image_space_center_crop"] and kw["random_crop_sampler_type"] == "gaussian" and rng.random() < 0.5
